@@ -886,6 +886,7 @@ def rewrite_gxx(ctx, cases):
         lines = CXX_HEAD.split("\n")
         lines.append("#include <tuple>")
         lines.append("#include <utility>")
+        lines.append("typedef int MPI_Fint;")
         lines.append("template<class F, int N> struct RWArg; template<class R, class... A, int N> struct RWArg<R(A...), N> "
                      "{ using type = typename std::tuple_element<N, std::tuple<A...>>::type; };")
         where = {}
